@@ -123,6 +123,11 @@ func (c *tcpConnectionActor) onReadConn(ctx vivid.ActorContext) (fatal bool, err
 	// 消息长度超过 4MB 则认为无效
 	if msgLen > 4*1024*1024 {
 		ctx.Logger().Warn("invalid message length", log.Int64("length", int64(msgLen)))
+		// 必须消费掉该帧的帧体，否则帧体字节会被当作后续帧解析（流失去同步，帧体内容可被当作伪造的消息投递）
+		if _, err = io.CopyN(io.Discard, reader, int64(msgLen)); err != nil {
+			ctx.Kill(ctx.Ref(), false, err.Error())
+			return true, vivid.ErrorReadMessageBufferFailed.With(err)
+		}
 		ctx.TellSelf(c.conn)
 		return false, vivid.ErrorInvalidMessageLength.WithMessage(fmt.Sprintf("length: %d", msgLen))
 	}
